@@ -23,6 +23,9 @@ def check(ctx):
     from . import core9
 
     core9.enable_call_defaults(ctx, "C04")
+    # the enable of a call site is driven in av_comb: it follows the conditions around the call only if every control manager
+    # mirrors its condition into the avoiding module
+    core3.tmodule_control_table(ctx, "C04", want_enter=False, want_mirror=True)
     core7.group_has_enclosing(ctx, "C04")
 
 
